@@ -38,6 +38,8 @@ def run_mpd(prop, tier, dense):
         h = h or {}
         for k in ("asset", "rep", "kind", "mode", "snr", "ast", "tsbd", "ato", "cfg", "TS", "vod0"):
             f.setdefault(k, h.get(k))
+        if h.get("refvod0"):   # first decode time of the asset's reference (video) track, also for audio scenarios
+            f["vod0"] = h["refvod0"]
         if m:
             f.setdefault("rel", m.get("rel"))
         if f["clause"].startswith("hdr."):
